@@ -263,7 +263,7 @@ def parseDef (e : SExp) : Option (Option Definition) :=
   | _ => none
 
 def showPkt (p : Pkt) : String :=
-  s!"{p.raw.pos} {p.items.length}" ++ (if p.items.isEmpty then "" else " " ++ showItems p.items)
+  s!"{p.raw.pos} {showHex p.raw.data} {p.items.length}" ++ (if p.items.isEmpty then "" else " " ++ showItems p.items)
 
 def showParse : ParseResult → String
   | .ok p => "ok " ++ showPkt p
@@ -338,6 +338,18 @@ def opsXtce (op : String) (args : List SExp) : Option String :=
       pure (unsup d fun d =>
         let evs := packetGenerator d (root.getD d.root) o ⟨skip, TRIM_THRESHOLD⟩ (initFile chunks total)
         "events" ++ String.join (evs.map (fun e => " " ++ showEvent e)))
+  | "gensched", [d, root, .list [pb, ho, cb, sh, yu], skip, .list srcs, _sched] => do
+      let d ← parseDef d; let root ← root.optStr?
+      let o : GenOpts := { parseBad := ← pb.bool?, headersOnly := ← ho.bool?, combine := ← cb.bool?,
+                           secHdrBytes := ← sh.nat?, yieldUnrec := ← yu.bool? }
+      let skip ← skip.nat?
+      let srcs ← srcs.mapM hexList2?
+      pure (unsup d fun d =>
+        let outs := srcs.map (fun chunks =>
+          let total := (chunks.map List.length).foldl (· + ·) 0
+          let evs := packetGenerator d (root.getD d.root) o ⟨skip, TRIM_THRESHOLD⟩ (initFile chunks total)
+          "G" ++ String.join (evs.map (fun e => " " ++ showEvent e)))
+        "sched " ++ " | ".intercalate outs)
   | "const", [.atom "ops"] =>
       some ("ok " ++ " ".intercalate (validOperators.map (fun (s, o) =>
         "s" ++ (showHex s.toUTF8.toList).drop 1 ++ ":" ++ (match o with
